@@ -1,3 +1,4 @@
+import Treepath.Proofs.Drive
 import Treepath.Proofs.EvalLemmas
 /-
 C01 — child-step selection is exact, ordered and by reference.
@@ -73,6 +74,119 @@ theorem key_on_list (k : String) (n : MNode J) (xs : List J) (h : n.data = .arr 
 theorem idx_on_dict (i : Int) (n : MNode J) (es : List (String × J)) (h : n.data = .obj es) :
     evalStep (.idx i) n = ([], none) := by
   simp [evalStep, Step.cls, singleOf, J.view, h]
+
+/-- **the traverser yields exactly what the definition selects.**  For every JSON document
+and every path of child steps (any number of multi-valued steps, whose iterations nest and
+are resumed through copied / restored resume pointers), driving the pointer-faithful machine
+model with `next()` until `StopIteration` yields exactly `eval steps root`: same nodes, same
+order, one result per derivation.  (Zero slice steps are not supported steps.) -/
+theorem machine_yields_definition (steps : Array (Step J)) (d : J)
+    (hchild : ∀ s ∈ steps.toList, s.isChild = true ∧ s.supported = true)
+    (limit : Nat) (st' st'' : St J) (rs : List (MNode J)) (E evs : List (Ev J))
+    (hy : Yields J.view steps (.doc d) limit freshIter rs E st')
+    (hstop : next J.view steps (.doc d) limit st' = (st'', evs, .stop)) :
+    rs = eval steps.toList (.root d) := by
+  have hff : ∀ s ∈ steps.toList, ∀ f, s ≠ .filter f := by
+    intro s hs f hf; have := (hchild s hs).1; rw [hf] at this; simp [Step.isChild] at this
+  exact exhausted_all steps (.doc d) (quiet_of_filterFree _ (fun s hs => ⟨(hchild s hs).2, hff s hs⟩))
+    (clean_of_filterFree steps hff) limit st' st'' rs E evs hy hstop
+
+/-- "by reference": every node a child step selects is a `child` of the context carrying a
+value that *is* one of the context container's own members (the model's values are the
+document's own sub-terms; object identity itself is checked on the python side) -/
+theorem child_value_is_member (s : Step J) (n m : MNode J) (hs : s.isChild = true)
+    (hm : m ∈ (evalStep s n).1) :
+    ∃ nm, m = .child n nm m.data ∧
+      ((∃ es, n.data = .obj es ∧ m.data ∈ es.map Prod.snd) ∨ (∃ xs, n.data = .arr xs ∧ m.data ∈ xs)) := by
+  have lookup_mem : ∀ (es : List (String × J)) (k : String) (x : J), es.lookup k = some x → x ∈ es.map Prod.snd := by
+    intro es k x h
+    induction es with
+    | nil => simp at h
+    | cons e es ih =>
+      obtain ⟨k', v⟩ := e
+      simp only [List.lookup] at h
+      split at h
+      · simp at h; simp [h]
+      · simp [ih h]
+  have getPy_mem : ∀ (xs : List J) (i : Int) (x : J), getPy? xs i = some x → x ∈ xs := by
+    intro xs i x h
+    unfold getPy? at h
+    split at h
+    · exact List.mem_of_getElem? h
+    · split at h
+      · exact List.mem_of_getElem? h
+      · simp at h
+  have enum_mem : ∀ (xs : List J) (i : Nat) (p : Nat × J), p ∈ enumFrom i xs → p.2 ∈ xs := by
+    intro xs
+    induction xs with
+    | nil => intro i p h; simp [enumFrom] at h
+    | cons y ys ih =>
+      intro i p h
+      simp only [enumFrom, List.mem_cons] at h
+      rcases h with rfl | h
+      · simp
+      · exact List.mem_cons_of_mem _ (ih _ _ h)
+  cases s <;> simp [Step.isChild] at hs
+  case key k =>
+    cases hd : n.data <;> simp [evalStep, Step.cls, singleOf, J.view, hd] at hm
+    rename_i es
+    obtain ⟨x, hx, rfl⟩ := hm
+    exact ⟨.key k, rfl, .inl ⟨es, rfl, lookup_mem es k x hx⟩⟩
+  case idx i =>
+    cases hd : n.data <;> simp [evalStep, Step.cls, singleOf, J.view, hd] at hm
+    rename_i xs
+    obtain ⟨x, hx, rfl⟩ := hm
+    exact ⟨.idx i, rfl, .inr ⟨xs, rfl, getPy_mem xs i x hx⟩⟩
+  case keyWc =>
+    cases hd : n.data <;> simp [evalStep, Step.cls, itemsOf, J.view, hd, dictItems] at hm
+    rename_i es
+    obtain ⟨k, x, hx, rfl⟩ := hm
+    exact ⟨.key k, rfl, .inl ⟨es, rfl, by simp only [MNode.data, List.mem_map]; exact ⟨(k, x), hx, rfl⟩⟩⟩
+  case idxWc =>
+    cases hd : n.data <;> simp [evalStep, Step.cls, itemsOf, J.view, hd, listItems] at hm
+    rename_i xs
+    obtain ⟨i, x, hx, rfl⟩ := hm
+    exact ⟨.idx i, rfl, .inr ⟨xs, rfl, enum_mem xs 0 (i, x) hx⟩⟩
+  case gwc =>
+    cases hd : n.data <;> simp [evalStep, Step.cls, itemsOf, J.view, hd, dictItems, listItems] at hm
+    · rename_i xs
+      obtain ⟨i, x, hx, rfl⟩ := hm
+      exact ⟨.idx i, rfl, .inr ⟨xs, rfl, enum_mem xs 0 (i, x) hx⟩⟩
+    · rename_i es
+      obtain ⟨k, x, hx, rfl⟩ := hm
+      exact ⟨.key k, rfl, .inl ⟨es, rfl, by simp only [MNode.data, List.mem_map]; exact ⟨(k, x), hx, rfl⟩⟩⟩
+  case tuple ns =>
+    cases hd : n.data <;> simp [evalStep, Step.cls, itemsOf, J.view, hd] at hm
+    · rename_i xs
+      obtain ⟨nm, x, hx, rfl⟩ := hm
+      obtain ⟨nm', _, hx'⟩ := hx
+      cases nm' <;> simp at hx'
+      exact ⟨_, rfl, .inr ⟨xs, rfl, getPy_mem xs _ _ hx'.1⟩⟩
+    · rename_i es
+      obtain ⟨nm, x, hx, rfl⟩ := hm
+      obtain ⟨nm', _, hx'⟩ := hx
+      cases nm' <;> simp at hx'
+      exact ⟨_, rfl, .inl ⟨es, rfl, lookup_mem es _ _ hx'.1⟩⟩
+  case slice a b c =>
+    cases hd : n.data <;> simp [evalStep, Step.cls, itemsOf, J.view, hd] at hm
+    rename_i xs
+    cases hsl : sliceItems a b c xs with
+    | none => simp [hsl] at hm
+    | some its =>
+      simp only [hsl, List.map_map, List.mem_map, Function.comp] at hm
+      obtain ⟨p, hp, rfl⟩ := hm
+      refine ⟨.idx p.1, rfl, .inr ⟨xs, rfl, ?_⟩⟩
+      unfold sliceItems at hsl
+      cases hsi : sliceIndices a b c xs.length with
+      | none => simp [hsi] at hsl
+      | some r =>
+        simp only [hsi, Option.some.injEq] at hsl
+        subst hsl
+        simp only [List.mem_filterMap] at hp
+        obtain ⟨i, _, hi⟩ := hp
+        cases hx : xs[i.toNat]? with
+        | none => simp [hx] at hi
+        | some x => simp [hx] at hi; subst hi; exact List.mem_of_getElem? hx
 
 /-- non-vacuity: a concrete document and path with nested multi-valued steps -/
 example : (eval [.keyWc, .idxWc] (.root (.obj [("a", .arr [.int 1, .int 2]), ("b", .arr [.null])]))).map MNode.pathStr
